@@ -277,8 +277,37 @@ func c08r1(c *Ctx) {
 
 			ob2 := c.Ob(f, "unlock-deferred:"+sink.Fn.Name(), sink.Pos())
 			deferred := false
+			// the deferred function is the unlock handed out by the lock, possibly through a copy (a field of a small
+			// "locked contract" value): every definition of the called variable that reaches the defer is that copy
+			isUnlock := func(fn types.Object, at *cfgx.Node) bool {
+				if fn == nil {
+					return false
+				}
+				if fn == site.unlock {
+					return true
+				}
+				defs := ReachingDefs(f, fn, at)
+				if len(defs) == 0 {
+					return false
+				}
+				for _, d := range defs {
+					if d == nil || d.AST == nil {
+						return false
+					}
+					ok := false
+					for _, w := range f.WritesIn(d.AST, false) {
+						if f.ObjOf(w.LHS) == fn && w.RHS != nil && f.ObjOf(w.RHS) == site.unlock {
+							ok = true
+						}
+					}
+					if !ok {
+						return false
+					}
+				}
+				return true
+			}
 			for _, d := range f.Defers() {
-				if f.ObjOf(d.Stmt.Call.Fun) == site.unlock && g.DominatedByNode(sn, d.Node) {
+				if isUnlock(f.ObjOf(d.Stmt.Call.Fun), d.Node) && g.DominatedByNode(sn, d.Node) {
 					deferred = true
 				}
 			}
@@ -332,7 +361,14 @@ func c08r2(c *Ctx) {
 			sn := g.NodeContaining(sink.Pos())
 			var edges []*cfgx.Edge
 			for _, call := range f.CallsTo(false, vcs) {
-				if rcv := call.Recv(); rcv == nil || f.ObjOf(rcv) != req || len(call.Expr.Args) != 1 {
+				rcv := call.Recv()
+				if rcv == nil {
+					// called through a method value bound to a local (`valid := req.ValidChallengeSignature`)
+					if mv, ok := ast.Unparen(origin(f, call.Expr.Fun)).(*ast.SelectorExpr); ok {
+						rcv = mv.X
+					}
+				}
+				if rcv == nil || f.ObjOf(rcv) != req || len(call.Expr.Args) != 1 {
 					continue
 				}
 				// argument must be the locked revision
